@@ -54,6 +54,13 @@ MemInit ==
     /\ cver = [c \in Cells |-> [w |-> 0, r |-> [t \in MThreads |-> 0]]]
     /\ race = FALSE
 
+MemReset ==
+    /\ hist' = [l \in Locs |-> << [val |-> InitVal(l), view |-> ZeroView] >>]
+    /\ tv' = [t \in MThreads |-> ZeroView]
+    /\ scv' = ZeroView
+    /\ cver' = [c \in Cells |-> [w |-> 0, r |-> [t \in MThreads |-> 0]]]
+    /\ race' = FALSE
+
 Base(t, ord) == IF ord = "SeqCst" THEN Join(tv[t], scv) ELSE tv[t]
 
 \* Timestamps a load of l by t with ordering ord may read.
